@@ -331,6 +331,10 @@ def to_vtl_json(
     _components.extend(structure.components.attributes)
 
     for c in _components:
+        if c.dtype not in VTL_DTYPES_MAPPING:
+            raise InputValidationException(
+                f"SDMX data type {c.dtype} of component {c.id} cannot be mapped to a VTL data type."
+            )
         _type = VTL_DTYPES_MAPPING[c.dtype]
         _nullability = c.role != SDMX_Role.DIMENSION
         _role = VTL_ROLE_MAPPING[c.role]
